@@ -832,7 +832,75 @@ theorem step_inv (s : St) (e : Ev) (hI : Inv s) : Inv (step s e) := by
     simp only [step]
     split
     · exact hI
-    · exact inv_of_frame2 hI (frame2_fields rfl rfl rfl rfl rfl rfl rfl)
+    · have h1 : Inv (if s.cfg.mergeSize > 0 then s.mergeFlush else s) := by
+        split
+        · rename_i hm; exact flush_inv s hI hm
+        · exact hI
+      have hD1 : (if s.cfg.mergeSize > 0 then s.mergeFlush else s).D = s.pubLog.length := by
+        split
+        · rename_i hm
+          obtain ⟨hS, hmf, _⟩ := flush_effect s hI
+          have : s.mergeFlush.cfg.mergeSize > 0 := by rw [hS.cfg]; exact hm
+          rw [D_of_merge _ this, hmf]
+        · rename_i hm; simp [St.D, hm]
+      have hpl : (if s.cfg.mergeSize > 0 then s.mergeFlush else s).pubLog = s.pubLog := by
+        split
+        · exact (flush_effect s hI).1.pubLog
+        · rfl
+      generalize (if s.cfg.mergeSize > 0 then s.mergeFlush else s) = s1 at h1 hD1 hpl ⊢
+      show Inv (afterDelIn s1 s.pubLog.length)
+      have hids : (s1.rtmpSubs.map (stopWaiting s.pubLog.length)).map (·.id) = s1.rtmpSubs.map (·.id) := by
+        simp only [List.map_map]; apply List.map_congr_left; intro x _
+        simp only [Function.comp, stopWaiting]; split <;> rfl
+      refine ⟨by show ((s1.rtmpSubs.map (stopWaiting s.pubLog.length)).map (·.id)).Nodup; rw [hids]; exact h1.nodup, ?_, h1.unused, ?_, h1.mfle, ?_, h1.size, by intro i h; cases h⟩
+      · intro x' hx'
+        have hx'' : x' ∈ s1.rtmpSubs.map (stopWaiting s.pubLog.length) := hx'
+        obtain ⟨x, hx, rfl⟩ := List.mem_map.mp hx''
+        have : (stopWaiting s.pubLog.length x).id = x.id := by simp only [stopWaiting]; split <;> rfl
+        rw [this]; exact h1.used x hx
+      · intro x' hx' _
+        have hx'' : x' ∈ s1.rtmpSubs.map (stopWaiting s.pubLog.length) := hx'
+        obtain ⟨x, hx, rfl⟩ := List.mem_map.mp hx''
+        have ok := h1.subs x hx (by simp)
+        have hid : (stopWaiting s.pubLog.length x).id = x.id := by simp only [stopWaiting]; split <;> rfl
+        by_cases hw : x.waitKey = true
+        · by_cases hf : x.fresh = true
+          · have e : stopWaiting s.pubLog.length x = { x with waitKey := false, start := none } := by
+              simp [stopWaiting, hw, hf]
+            rw [e]
+            constructor
+            · intro _; exact ⟨(ok.fresh_ hf).1, rfl⟩
+            · intro h; simp [hf] at h
+            · intro h; simp [hf] at h
+          · have hf' : x.fresh = false := by simpa using hf
+            have e : stopWaiting s.pubLog.length x = { x with waitKey := false, start := some s.pubLog.length } := by
+              simp [stopWaiting, hw, hf']
+            have hstart : x.start = none := by
+              cases hs : x.start with
+              | none => rfl
+              | some a => have := (ok.live_ hf' a hs).1; rw [hw] at this; cases this
+            have hb := (ok.wait_ hf' hstart).2
+            rw [e]
+            constructor
+            · intro h; simp [hf'] at h
+            · intro _ h; cases h
+            · intro _ a ha
+              simp only [Option.some.injEq] at ha
+              subst ha
+              have hDn : (afterDelIn s1 s.pubLog.length).D = s.pubLog.length := hD1
+              refine ⟨rfl, by rw [hDn]; exact Nat.le_refl _, ?_⟩
+              rw [hDn]
+              show s1.rb x.id = _
+              rw [hb, slice_self]; simp [bytesOf]
+        · have e : stopWaiting s.pubLog.length x = x := by simp [stopWaiting, hw]
+          rw [e]
+          exact subOk_of_eq (s := s1) (s' := afterDelIn s1 s.pubLog.length) rfl rfl rfl ok
+      · intro hm ⟨x', hx', hf⟩
+        have hx'' : x' ∈ s1.rtmpSubs.map (stopWaiting s.pubLog.length) := hx'
+        obtain ⟨x, hx, rfl⟩ := List.mem_map.mp hx''
+        have : (stopWaiting s.pubLog.length x).fresh = x.fresh := by simp only [stopWaiting]; split <;> rfl
+        rw [this] at hf
+        exact h1.pend hm ⟨x, hx, hf⟩
   | msg m =>
     simp only [step]
     split
@@ -955,7 +1023,14 @@ theorem broadcast_cfg_pub (s : St) (m : InMsg) (hI : Inv s) :
 theorem step_cfg (s : St) (e : Ev) (hI : Inv s) : (step s e).cfg = s.cfg := by
   cases e with
   | addPub => simp only [step]; split; rfl; split <;> rfl
-  | delPub => simp only [step]; split <;> rfl
+  | delPub =>
+    simp only [step]; split
+    · rfl
+    · show (afterDelIn (if s.cfg.mergeSize > 0 then s.mergeFlush else s) s.pubLog.length).cfg = s.cfg
+      show (if s.cfg.mergeSize > 0 then s.mergeFlush else s).cfg = s.cfg
+      split
+      · exact (flush_effect s hI).1.cfg
+      · rfl
   | msg m => simp only [step]; split; exact (broadcast_cfg_pub s m hI).1; rfl
   | join k id => cases k <;> simp only [step] <;> (try split) <;> rfl
   | leave k id => cases k <;> rfl
